@@ -292,6 +292,55 @@ pub mod harnesses {
     kani::cover!(r.is_some(), "reachable: some token parses");
   }
 
+  // ------------------------------------------------------------------ C17: joypad (complete twin of the Verus contracts of unit joypad)
+  // Reference (from the property): a line reads 0 iff a pressed button of a selected group drives it; bits 4/5 echo the
+  // written select bits; a request is raised when some line goes from 1 to 0; it is reported once.
+  fn jp_lines(act: u8, dir: u8, sa: bool, sd: bool) -> u8 { !((if sd { dir } else { 0 }) | (if sa { act } else { 0 })) & 0x0f }
+  fn jp_p1(act: u8, dir: u8, sa: bool, sd: bool) -> u8 { jp_lines(act, dir, sa, sd) | (if sd { 0 } else { 0x10 }) | (if sa { 0 } else { 0x20 }) }
+  fn jp_button(k: u8) -> crate::devices::joypad::Button {
+    use crate::devices::joypad::Button;
+    match k { 0 => Button::A, 1 => Button::B, 2 => Button::Select, 3 => Button::Start, 4 => Button::Right, 5 => Button::Left, 6 => Button::Up, _ => Button::Down }
+  }
+  #[kani::proof] #[kani::unwind(10)]
+  fn joypad_twin() {
+    let mut j = crate::devices::joypad::Joypad::new();
+    // any reachable state: any set of held buttons, any selection, a request pending or not
+    let held: u8 = kani::any();
+    let mut k = 0u8;
+    while k < 8 { if held & (1 << k) != 0 { j.press_button(jp_button(k)); } k += 1; }
+    let sel0: u8 = kani::any();
+    j.set_value(sel0);
+    let (mut act, mut dir) = (held & 0x0f, held >> 4);
+    let (mut sa, mut sd) = (sel0 & 0x20 == 0, sel0 & 0x10 == 0);
+    // nothing is selected while the buttons are pressed (no line can fall); the select write may latch a request
+    let mut pending = 0x0f & !jp_lines(act, dir, sa, sd) & 0x0f != 0;
+    let drain: bool = kani::any();
+    if drain { let f = j.get_interrupt().as_u8(); assert!((f == 16) == pending && (f == 0 || f == 16), "C17: the joypad interrupt is requested exactly when a line falls (and stays pending until collected)"); pending = false; }
+    let read0 = j.get_value();
+    let prev = jp_lines(act, dir, sa, sd);
+    // one arbitrary operation
+    let op: u8 = kani::any(); let arg: u8 = kani::any();
+    kani::assume(op < 4);
+    let mut fell = false;
+    match op {
+      0 => { let b = arg & 7; j.press_button(jp_button(b)); if b < 4 { act |= 1 << b; } else { dir |= 1 << (b - 4); } fell = prev & !jp_lines(act, dir, sa, sd) & 0x0f != 0; },
+      1 => { let b = arg & 7; j.release_button(jp_button(b)); if b < 4 { act &= !(1 << b); } else { dir &= !(1 << (b - 4)); } },
+      2 => { j.set_value(arg); sa = arg & 0x20 == 0; sd = arg & 0x10 == 0; fell = prev & !jp_lines(act, dir, sa, sd) & 0x0f != 0; },
+      _ => {},
+    }
+    let read1 = j.get_value();
+    let got = j.get_interrupt().as_u8();
+    let again = j.get_interrupt().as_u8();
+    let sel: u8 = kani::any();
+    match sel {
+      0 => assert!(read0 & 0x3f == jp_p1(held & 0x0f, held >> 4, sel0 & 0x20 == 0, sel0 & 0x10 == 0), "C17: P1 reads the lines of the selected groups and echoes the select bits"),
+      1 => assert!(read1 & 0x3f == jp_p1(act, dir, sa, sd), "C17: P1 after a press / release / select write"),
+      2 => assert!((got == 16) == (pending || fell) && (got == 0 || got == 16), "C17: the joypad interrupt is requested exactly when a line falls (and stays pending until collected)"),
+      3 => assert!(again == 0, "C17: a request is reported once"),
+      _ => { kani::cover!(fell, "reachable: a line falls"); kani::cover!(pending && !fell, "reachable: pending request survives"); },
+    }
+  }
+
   // ------------------------------------------------------------------ C07: Core::handle_interrupt (loop-free twin of the Verus contract)
   // The bus is replaced by a stub that implements exactly the part of the bus contract (C10) a push can interact with:
   // a write to 0xFFFF sets IE, a write to 0xFF0F sets IF (5 bits each), every write is logged.
